@@ -432,6 +432,17 @@ class Interp:
                 v = self.ev(f.value, env)
                 if isinstance(v, T):
                     return RStrip(v, e.args[0].value)
+            if f.attr in ('rjust', 'ljust') and e.args and len(e.args) <= 2:
+                v = self.ev(f.value, env)
+                fill = ' '
+                if len(e.args) == 2:
+                    fv = self.ev(e.args[1], env)
+                    if not isinstance(fv, Lit) or len(fv.v) != 1:
+                        raise _nt(e, '(fill character)')
+                    fill = fv.v
+                if isinstance(v, T):
+                    pad = Star(Lit(fill))
+                    return cat(pad, v) if f.attr == 'rjust' else cat(v, pad)
             if f.attr in ('rstrip',) and not e.args and not e.keywords:
                 v = self.ev(f.value, env)
                 if isinstance(v, T):
@@ -827,6 +838,12 @@ class Interp:
                 # a second loop appending to the same list: from here on the list is a piece accumulator
                 env[a] = Star(self.as_str(self.item_of(cur), st), cur.src, 1 if getattr(cur, 'nonempty', False) else 0)
                 self.__dict__.setdefault('piece_names', set()).add(a)
+        if getattr(self, '_force_pieces', None):
+            for a in mod:
+                cur = env.get(a)
+                if a in self._force_pieces and isinstance(cur, ListOf) and cur.item is None and not hasattr(cur, 'items'):
+                    env[a] = Lit('')
+                    self.__dict__.setdefault('piece_names', set()).add(a)
         sacc = [a for a in mod if isinstance(env.get(a), T)]
         lacc = [a for a in mod if isinstance(env.get(a), ListOf)]
 
@@ -874,6 +891,10 @@ class Interp:
                     if not any(repr(out[a][0]) == repr(c) for c in alts):
                         alts.append(out[a][0])
                 elif len(out[a]) > 1:
+                    if not getattr(self, '_force_pieces', None) or a not in self._force_pieces:
+                        # heterogeneous appends: the list is a piece accumulator (only meaningful when joined with '')
+                        self._force_pieces = set(getattr(self, '_force_pieces', None) or ()) | {a}
+                        return self.exec_for(st, env)
                     raise _nt(st, '(several appends per iteration)')
             if alts:
                 env[a] = ListOf(alts[0] if len(alts) == 1 else Alt(alts), lst.src)
